@@ -1,6 +1,7 @@
 package main
 
 import (
+	"bytes"
 	"context"
 	"crypto/tls"
 	"errors"
@@ -78,7 +79,22 @@ type result struct {
 	unsupported     string
 	probeFinalValid bool
 	probeConverged  bool
+	slowLoad        time.Duration // how long the initial load of a slow-initial history took
 }
+
+// slowTail: ~4 MiB of PEM blocks of a type the certificate parser skips.
+var slowTail = func() []byte {
+	var b bytes.Buffer
+	line := strings.Repeat("QUJD", 16) + "\n"
+	for b.Len() < 4<<20 {
+		b.WriteString("-----BEGIN X-VERIF-PADDING-----\n")
+		for i := 0; i < 400; i++ {
+			b.WriteString(line)
+		}
+		b.WriteString("-----END X-VERIF-PADDING-----\n")
+	}
+	return b.Bytes()
+}()
 
 // flagWired: this process composes its (single) watcher through fingerproxy.VerifNewApp (child mode).
 var flagWired bool
@@ -169,6 +185,9 @@ func (hr *histRun) setup() error {
 		return err
 	}
 	hr.dir = dir
+	if os.Getenv("VERIF_C14_DEBUG") != "" {
+		dbgf("[C14 DBG %s] history %d (%s) dir=%s\n", time.Now().Format("05.000000"), hr.h.ID, hr.h.Name, dir)
+	}
 	hr.certPath = filepath.Join(dir, "tls.crt")
 	hr.keyPath = filepath.Join(dir, "tls.key")
 	c, k := certC(hr.h.Init), keyC(hr.pool.keyOf[hr.h.Init])
@@ -186,7 +205,11 @@ func (hr *histRun) setup() error {
 		}
 		return os.Symlink("..data/tls.key", hr.keyPath)
 	}
-	if err := os.WriteFile(hr.certPath, hr.pool.bytes(c), 0o600); err != nil {
+	cb := hr.pool.bytes(c)
+	if hr.h.SlowInitial {
+		cb = append(append([]byte{}, cb...), slowTail...)
+	}
+	if err := os.WriteFile(hr.certPath, cb, 0o600); err != nil {
 		return err
 	}
 	return os.WriteFile(hr.keyPath, hr.pool.bytes(k), 0o600)
@@ -609,7 +632,11 @@ func runHistory(h *history, pool *pairPool, isolated bool) *result {
 		cw, wiredCfg = app.CertWatcher, app.TLSConfig
 	} else {
 		var err error
+		t0 := time.Now()
 		cw, err = certwatcher.New(hr.certPath, hr.keyPath)
+		if hr.h.SlowInitial {
+			hr.res.slowLoad = time.Since(t0)
+		}
 		if err != nil {
 			cancel()
 			return harness("certwatcher.New on a valid initial pair: %v", err)
@@ -695,9 +722,11 @@ func runHistory(h *history, pool *pairPool, isolated bool) *result {
 	}
 
 	func() {
-		if err := hr.waitHandshakes(2); err != nil {
-			res.inconclusive = "harness: " + err.Error()
-			return
+		if !h.SlowInitial { // a slow-initial history starts its first step the moment the watches are armed
+			if err := hr.waitHandshakes(2); err != nil {
+				res.inconclusive = "harness: " + err.Error()
+				return
+			}
 		}
 		for i, st := range h.Steps {
 			if err := hr.apply(i, st); err != nil {
